@@ -103,12 +103,12 @@ ADDED = {
  "C03": " The emitted module is also run by V8 when a node >= 22 is installed; every fourth generated program is in addition compiled with a second entry point whose code calls the first entry's main (no panic, valid module, no engine fault in either entry).",
  "C04": " The emitted TypeScript is also run unmodified with --experimental-strip-types and the wasm by V8 when a node >= 22 is installed; a fault or untokenisable output on one back end only counts as a disagreement; string-literal atom tables and literal operator tables are part of the workload.",
  "C05": " Also: width ladders around the parser's size limits (tuples, arguments, parameters, fields, variants, type arguments, patterns of 0..300 elements) and modules full of binding constructs with ill-formed patterns (arity, duplicate / unknown fields). A drive is stopped after 6 (quick) / 24 stalled inputs; the first three are re-run alone.",
- "C06": " Further fault operators: or-pattern alternatives that bind an extra in-scope name or a different name; complete pattern matrices (tuple / struct in any field order / variant payload over 2-3 small enums) with each single arm removed and as refutable let; one ill-formed pattern (extra / missing sub-pattern, duplicate or unknown field, tuple arity) in a module of binding constructs.",
- "C08": " Also: all depth-3 nestings (outer, middle, inner, both parenthesisation flags: about 800 000), random fully parenthesised operator trees of depth 2-5, and every string literal of up to three atoms.",
+ "C06": " Further fault operators: or-pattern alternatives that bind an extra in-scope name or a different name; complete pattern matrices (tuple / struct in any field order / variant payload over 2-3 small enums) with each single arm removed and as refutable let; one ill-formed pattern (extra / missing sub-pattern, duplicate or unknown field, tuple arity) in a module of binding constructs; a local used outside its scope (kept only when an independent scope resolver finds no binding); a type argument violating the bound of any type parameter of a generic zoo; a match arm / if branch replaced by a value of a brand-new class (skipped when the sibling only panics).",
+ "C08": " Also: all depth-3 nestings (outer, middle, inner, both parenthesisation flags: about 800 000), random fully parenthesised operator trees of depth 2-5, and every string literal of up to three atoms. The signature of a same-operator regrouping names the other operators on the operand's left spine, so that the pinned value-preserving case cannot mask a value-changing one.",
  "C10": " Document shapes include a construct zoo (every syntactic construct once).",
  "C11": " Documents include a construct zoo in which every syntactic construct occurs once with identifiers longer than 15 bytes that often have a single occurrence (unused binders, names only in patterns).",
- "C12": " Rejected programs include a diagnostic zoo (messages assembled from sets / maps: several equally good counterexamples, binder sets of or-patterns, missing members, cyclic definitions); a third of the accepted programs are compiled with two entry points, one reachable from the other.",
- "C13": " A ninth rewrite moves a class into a new module (imports adjusted in every importer); a fifth of the bases are binder-zoo modules whose every binding is renamed in turn.",
+ "C12": " Rejected programs include a diagnostic zoo (messages assembled from sets / maps: several equally good counterexamples, binder sets of or-patterns, missing members, cyclic definitions); some carry a module that does not parse next to modules with checker errors; accepted programs include an order zoo (closures capturing this plus 1-5 variables, members through an interface) and programs with two entry points, one reachable from the other; a compiler crash in some processes only is a violation.",
+ "C13": " A ninth rewrite moves a class into a new module (imports adjusted in every importer); a fifth of the bases are binder-zoo modules whose every binding is renamed in turn, a tenth are generic-zoo modules (bounds in every shape, branches typed from earlier branches, lambda arguments of inferred calls) with generator-known equivalent spellings; every expression of a zoo module is wrapped in parentheses and in a block.",
  "C14": " A share of the texts are binder-zoo modules (every binder form in every binding construct, partially annotated lambdas).",
  "C15": " A quarter of the modules are binder-zoo modules (shorthand / renamed fields inside or-pattern alternatives, names reused in disjoint scopes, partially annotated lambdas).",
  "C16": " Layouts include the next item on the import's line, a multi-line comment starting there, no final newline, CRLF, imports over several lines and the exporting module already imported for another class; a completion item for the unresolved class is checked even when it carries no edit.",
